@@ -188,6 +188,7 @@ func c18RunFlight(m *vk.M, idx int, sc c18FScn) bool {
 		perKey[e.key] = append(perKey[e.key], e)
 	}
 	var ncalls, shared, contended int
+	served := map[int64][]*c18FRec{} // execution id -> calls that received its result without executing
 	violated := false
 	fail := func(class, format string, a ...any) {
 		if !violated { // first witness of a scenario only
@@ -266,6 +267,27 @@ func c18RunFlight(m *vk.M, idx int, sc c18FScn) bool {
 				fail("stale-result", "client %d call %d (key k%d) spans stamps [%d,%d] but received the result of execution #%d whose call (client %d call %d) spans [%d,%d]: the calls do not overlap, a later call must execute afresh",
 					x.client, x.idx, x.key, x.call, x.ret, e.id, a.client, a.idx, a.call, a.ret)
 				continue
+			}
+			served[e.id] = append(served[e.id], x)
+		}
+	}
+	// (3) a call that did not execute must have begun before ANY call served by the same
+	// execution returned: once a result has been delivered, a later call executes afresh
+	// (in the library: the map entry is deleted before the waiters are released)
+	for id, xs := range served {
+		e := byID[id]
+		a := &recs[e.by][e.byIdx]
+		firstRet, who := a.ret, a
+		for _, y := range xs {
+			if y.ret < firstRet {
+				firstRet, who = y.ret, y
+			}
+		}
+		for _, x := range xs {
+			if x.call > firstRet {
+				fail("result-reused-after-delivery", "key k%d: client %d call %d began at stamp %d, after client %d call %d had already returned (stamp %d) with the result of execution #%d, and was served by that same execution instead of executing afresh",
+					x.key, x.client, x.idx, x.call, who.client, who.idx, firstRet, id)
+				break
 			}
 		}
 	}
